@@ -149,6 +149,14 @@ theorem name_enc (e : Nat) {nm nsz : List UInt8} (h : ULeb 32 nm.length nsz) (ta
 
 theorem skip_run (n : Nat) (bs : Bytes) : skip n bs = .ok ((), bs.drop n) := rfl
 
+/-- The name section is recognised by its EXACT name (`strcmp(name, "name") == 0`): the regenerated comparison mode is
+    `exact`.  With a prefix comparison (`strncmp`) this — and every statement about skipped custom sections — fails. -/
+theorem isNameSection_iff (nm : Bytes) : isNameSection nm = true ↔ nm = strBytes Reader.nameSectionName := by
+  have hmode : Reader.nameSectionMatch = "exact" := rfl
+  unfold isNameSection nameMatch
+  rw [hmode]
+  exact beq_iff_eq
+
 /-- A custom section that is not the name section (or any custom section without `-g`) is skipped: the
     module is unchanged except, for `.debug_*` names, the list of debug sections. -/
 theorem readSection_custom (cfg : Cfg) (m : RawModule) {nm content b : List UInt8} (rest : Bytes)
@@ -180,7 +188,8 @@ theorem readSection_custom (cfg : Cfg) (m : RawModule) {nm content b : List UInt
       by_cases hp : (strBytes Reader.debugSectionNamePrefix).isPrefixOf (cstr nm) = true
       · rw [if_pos hp, remaining_bind, bind_eq_of_ok (skip_run _ _), pure_run, hdrop]
         exact ⟨_, rfl, ⟨m.length, _, rfl⟩⟩
-      · rw [if_neg hp, ite_run, if_neg hno, bind_eq_of_ok (skip_run _ _), pure_run, hdrop]
+      · have hno' : ¬ (cfg.debug = true ∧ isNameSection (cstr nm) = true) := fun hc => hno ⟨hc.1, (isNameSection_iff _).1 hc.2⟩
+        rw [if_neg hp, ite_run, if_neg hno', bind_eq_of_ok (skip_run _ _), pure_run, hdrop]
         exact ⟨m, rfl, Sim.refl m⟩
     obtain ⟨m', hm', hsim⟩ := hcs
     rw [hm']
